@@ -24,6 +24,13 @@ def checkSearchLim (repos : List Repo) (matching : List Doc) (hits : List Doc) :
   hits.all (fun d => matching.contains d) &&
   matching.all (fun d => hidden repos d || hits.any (fun h => h.repo == d.repo))
 
+/-- a (re)load observed while the sidecar may be unreadable: it may fail, but if it yields metadata, that metadata is the
+    sidecar's when a sidecar exists (tombstones survive the reload), the embedded one otherwise -/
+def checkLoad (base : List Repo) (side : Option (List Repo)) (loaded : Option (List Repo)) : Bool :=
+  match loaded with
+  | none => true
+  | some l => l == side.getD base
+
 /-- listings never contain a tombstoned repository -/
 def checkList (repos : List Repo) (listed : List Nat) : Bool :=
   listed.all fun i => (repos[i]?).any fun r => !r.tomb
